@@ -90,6 +90,10 @@ partial def stmtOf (j : Json) : Except String Stmt := do
     | "launchg", [acc, ps, n, m, sh, mu] =>
       return .launchG (← str acc) (← listOf pairOf ps) (← nat n) (← int m) (← listOf int sh) (← listOf int mu)
     | "await", [acc] => return .await (← str acc)
+    | "setupr", [acc, ps, prev] =>
+      return .setupR (← str acc) (← listOf pairOf ps) (← optOf (listOf pairOf) prev)
+    | "launchr", [acc, ps] => return .launchR (← str acc) (← listOf pairOf ps)
+    | "awaitr", [acc] => return .awaitR (← str acc)
     | "op", [t, n] => return .op (← nat t) (← nat n)
     | "if", [t, n, th, el] => return .ifS (← nat t) (← listOf islotOf n) (← blockOf th) (← blockOf el)
     | "for", [t, n, b] => return .forS (← nat t) (← listOf fslotOf n) (← blockOf b)
@@ -100,10 +104,19 @@ partial def blockOf (j : Json) : Except String Block := do
   return l.foldr Block.cons Block.nil
 end
 
+def jRVal : RVal → Json
+  | .var v => jNat v
+  | .default0 => Json.str "d0"
+
+def jRStmt : RStmt → Json
+  | .const0 => Json.arr #[Json.str "const0"]
+  | .insn _ f a b => Json.arr #[Json.str "insn", jNat f, jRVal a, jRVal b]
+
 mutual
 partial def jCStmt : CStmt → Json
   | .csrw a v c l => Json.arr #[Json.str "csrw", jNat a, jNat v, Json.bool c, Json.bool l]
   | .csrwC a c => Json.arr #[Json.str "csrwc", jNat a, jInt c]
+  | .rocc st => Json.arr #[Json.str "rocc", jRStmt st]
   | .poll a => Json.arr #[Json.str "poll", jNat a]
   | .clear => Json.arr #[Json.str "clear"]
   | .nop => Json.arr #[Json.str "nop"]
@@ -132,14 +145,6 @@ def lower : Handler := fun j => do
   match lowerBlock ds p with
   | .ok q => return Json.mkObj [("prog", jCBlock q), ("states", jNat q.stateCount)]
   | .error e => return jErr e
-
-def jRVal : RVal → Json
-  | .var v => jNat v
-  | .default0 => Json.str "d0"
-
-def jRStmt : RStmt → Json
-  | .const0 => Json.arr #[Json.str "const0"]
-  | .insn _ f a b => Json.arr #[Json.str "insn", jNat f, jRVal a, jRVal b]
 
 /-- args: {"decl": [[name, funct7]…], "ps": [[name, var]…], "prev": null | [[name, var]…]} -/
 def roccSetupH : Handler := fun j => do
